@@ -430,13 +430,23 @@ def run(ctx):
                 txt2 = txt.replace("µ", "u")
                 ops.append({"op": "parse_units", "s": txt2})
                 meta.append((sym, e, txt2))
+    # the same symbols as the SECOND factor of a product / quotient: "s-1/µM2" = s-1.µM-2, "s.L" …
+    for sym in VOLUME + MOLAR:
+        for e in (1, 2, -1):
+            for sep in (".", "/"):
+                txt = "s-1%s%s" % (sep, sym if e == 1 else "%s%d" % (sym, e))
+                ops.append({"op": "parse_units", "s": txt})
+                meta.append((sym, ("s-1", -e if sep == "/" else e), txt))
     res = ctx.model.run(ops)
     for (sym, e, txt), r in zip(meta, res):
+        lead_t = 0
+        if isinstance(e, tuple):
+            lead_t, e = -1, e[1]
         if sym in VOLUME:
-            spec_dim = (3 * e, 0, 0)
+            spec_dim = (3 * e, lead_t, 0)
             spec_si = (PREFIX[sym[:-1]] * Fraction(1, 1000)) ** e
         else:
-            spec_dim = (-3 * e, 0, e)
+            spec_dim = (-3 * e, lead_t, e)
             spec_si = (PREFIX[sym[:-1]] * NA / Fraction(1, 1000)) ** e
         case = {"text": txt}
         try:
